@@ -112,11 +112,13 @@ pub struct InstState {
     pub pending: u32,
     pub emitted: u32,
     pub pulls_seen: u32,
+    /// non-conformant source: ignores terminations (C20 differential only)
+    pub zombie: bool,
 }
 
 impl InstState {
     pub fn live(&self) -> bool {
-        self.greeted && !self.ended && !self.terminated
+        self.greeted && !self.ended && (!self.terminated || self.zombie)
     }
 }
 
@@ -317,7 +319,7 @@ impl<T: Send + Sync + 'static> Puppet<T> {
         {
             let mut g = self.world.lock();
             let owner = g.cur_tag;
-            g.pups[self.id as usize].push(InstState { owner, ..Default::default() });
+            g.pups[self.id as usize].push(InstState { owner, zombie: self.spec.zombie, ..Default::default() });
             g.log.push(Ev::Owner { pup: self.id, inst: inst as u16, owner });
         }
         let h = self.world.enter(Site::PupRecv { pup: self.id, inst: inst as u16, msg: M::Handshake });
@@ -601,7 +603,7 @@ impl<T: ToVal + Send + Sync + 'static> Probe<T> {
         let ok = {
             let mut g = self.world.lock();
             let st = &mut g.sinks[self.id as usize][sub];
-            let mut ok = st.greeted && !st.sent_terminal && !st.got_terminal;
+            let mut ok = st.greeted && ((!st.sent_terminal && !st.got_terminal) || self.spec.rogue);
             // C15's quantifier is "every pattern of Pull": a sink that keeps pulling after the end
             if !ok && kind == SendKind::Pull && self.spec.pull_after_end && st.greeted && !st.sent_terminal {
                 ok = true;
